@@ -451,6 +451,8 @@ def run(ctx):
       functions=[TimingCorrectingCaptionList._update_last_batch], setup_interp=setup, crosscheck=False)
     P("scc.fix_last_captions_without_ending", last_captions, functions=[fix_last_captions_without_ending],
       setup_interp=setup, crosscheck=False, fsem="uf")
+    import props.C16_list as TLS
+    TLS.prove_list_skeleton(ctx)      # (a gap is closed on ALL parts of the previous caption; dropped items close nothing)
     import props.C06_commands as CM
     CM.prove_commands(ctx)
     import props.C06_line as LI
